@@ -245,9 +245,12 @@ def check(ctx):
     lang_units = [(lg, u) for lg in langunits.UNITS for u in langunits.units(lg)]
     # body-less declarations ('struct S;' is where a semicolon pass has to tell a needed ';' from an extra one) next to bodies
     # closed by '};' - in every language that has the keywords
-    fwd = "struct Opaque;\nunion Blob;\nenum Mode;\nstruct WithBody { int a; };\nenum Listed { LA, LB };\nint after_fwd;\n"
+    # (two units: a pass that goes wrong on one of the forms usually gets the whole file refused, which is not C04's subject)
+    fwd = "struct Opaque;\nunion Blob;\nenum Mode;\nint use(Opaque *o, Mode m);\nint after_fwd;\n"
+    bodies = "struct WithBody { int a; };\nenum Listed { LA, LB };\nunion U2 { int i; char c; };\nint after_bodies;\n"
     for lg in ("C", "CPP", "D", "CS", "VALA", "OC"):
         lang_units.append((lg, ("lang:fwd-decls", ("class Fwd;\n" if lg in ("CPP", "D") else "").encode() + fwd.encode(), {"ctx": "lang"})))
+        lang_units.append((lg, ("lang:body-decls", bodies.encode(), {"ctx": "lang"})))
     for lg, pr in lang_units:
         G(pr, lg, "defaults", {}, mod_family, None, 1)
         if not quick:
